@@ -45,8 +45,10 @@ fn supplied<T: MaybeDynSized<Header = TagHeader> + ?Sized>(t: &T) -> Vec<u8> {
 /// seeds lengths and field values), recording the supplied tag in the model.
 fn call(b: Builder, m: &mut Model, slot: usize, c: usize) -> Builder {
     let s = c as u32;
-    let text: String = (0..(3 + 5 * c)).map(|i| (b'a' + ((i + slot) % 26) as u8) as char).collect();
-    let blob: Vec<u8> = (0..(2 + 7 * c)).map(|i| marker(i, slot + 50)).collect();
+    // seeds >= 1000: empty text / empty blob; seeds >= 2000: custom tags that share one type number
+    let empty = (1000..2000).contains(&c);
+    let text: String = if empty { String::new() } else { (0..(3 + 5 * (c % 1000))).map(|i| (b'a' + ((i + slot) % 26) as u8) as char).collect() };
+    let blob: Vec<u8> = if empty { vec![] } else { (0..(2 + 7 * (c % 1000))).map(|i| marker(i, slot + 50)).collect() };
     match slot {
         0 => {
             let t = CommandLineTag::new(&text);
@@ -125,7 +127,7 @@ fn call(b: Builder, m: &mut Model, slot: usize, c: usize) -> Builder {
             b.rsdpv2(t)
         }
         15 => {
-            let t = EFIMemoryMapTag::new_from_map(48, 1, &vec![0x5A + s as u8; 48 * (c + 1)]);
+            let t = EFIMemoryMapTag::new_from_map(48, 1, &vec![0x5Au8.wrapping_add(s as u8); 48 * ((c % 1000) + 1)]);
             m.put(slot, supplied(&*t));
             b.efi_mmap(t)
         }
@@ -155,7 +157,8 @@ fn call(b: Builder, m: &mut Model, slot: usize, c: usize) -> Builder {
             b.image_load_addr(t)
         }
         _ => {
-            let t = new_boxed::<DynSizedStructure<TagHeader>>(TagHeader::new(TagType::Custom(0x1337 + s), 0), &[&blob]);
+            let typ = if c >= 2000 { 0x2000 } else { 0x1337 + s };
+            let t = new_boxed::<DynSizedStructure<TagHeader>>(TagHeader::new(TagType::Custom(typ), 0), &[&blob]);
             m.put(slot, supplied(&*t));
             b.add_custom_tag(t)
         }
@@ -364,6 +367,22 @@ fn run(ctx: &mut Ctx) {
                 });
             }
         }
+    }
+    // special contents: empty texts / payloads, custom tags sharing a type number (equal and different payloads)
+    ctx.bound("special_contents", "empty module command line, empty SMBIOS / custom / network payloads, custom tags that share one type number with equal and with different payloads, each alone, repeated and between other tags");
+    for prog in [
+        vec![(2usize, 1000usize)], vec![(2, 0), (2, 1000), (2, 1)], vec![(2, 1000), (2, 1000)],
+        vec![(12, 1000)], vec![(12, 1), (12, 1000), (12, 0)],
+        vec![(21, 1000)], vec![(21, 0), (21, 1000), (21, 1)], vec![(21, 1000), (21, 1000)],
+        vec![(21, 2000), (21, 2001)], vec![(21, 2001), (21, 2000), (21, 2001)], vec![(21, 2003), (21, 2003)], vec![(3, 0), (21, 2000), (21, 5), (21, 2000), (20, 0)],
+        vec![(16, 1000)], vec![(0, 1000)], vec![(1, 1000), (0, 1000), (2, 1000)], vec![(8, 1000), (5, 0), (15, 1000)],
+    ] {
+        let describe = || J::obj().set("part", "special-contents").set("calls", J::Arr(prog.iter().map(|(s, c)| J::from(format!("{}#{}", SLOT_NAMES[*s], c))).collect()));
+        ctx.leaf(describe, |ctx| {
+            ctx.state_direct();
+            ctx.nontrivial();
+            run_program(ctx, &prog, &|| format!("calls {:?}", prog));
+        });
     }
     for typ in 0..=21u32 {
         ctx.leaf(
